@@ -25,6 +25,7 @@ RelFor(label, i) ==
       [] label = "kbsd-fallback" -> << <<[name |-> Ext, restr |-> "only-kbsd-any"], [name |-> Bin(i, 2), restr |-> "none"]>> >>         \* first alternative is for another OS -> edge
       [] label = "kbsd-only"     -> << <<[name |-> Bin(i, 2), restr |-> "only-kbsd-any"]>> >>                                           \* -> no edge
       [] label = "not-kbsd"      -> << <<[name |-> Bin(i, 2), restr |-> "not-kbsd-any"]>> >>                                            \* -> edge
+      [] label = "gnu-any-amd64" -> << <<[name |-> Bin(i, 2), restr |-> "only-gnu-any-amd64"], [name |-> Ext, restr |-> "none"]>> >>            \* -> edge
       [] label = "linux-any"     -> << <<[name |-> Bin(i, 2), restr |-> "only-linux-any"]>> >>                                          \* -> edge
       [] label \in {"q-native", "q-any", "q-target", "versioned"} -> << <<[name |-> Bin(i, 2), restr |-> label]>> >>      \* -> edge
       [] label = "none"        -> <<>>
@@ -53,10 +54,16 @@ SelfVecs == {LET g == IF two THEN (IF first THEN <<SelfSrc(lb, f), Plain2>> ELSE
 \* qualified and versioned names: one edge between two sources (the rest unrelated), in both directions - the dependent
 \* source is listed first in one of them
 QualLabs == {[p \in Pairs |-> IF p = e THEN lb ELSE "none"] : e \in {<<1, 2>>, <<2, 1>>},
-                lb \in {"q-native", "q-any", "q-target", "versioned", "kbsd-fallback", "kbsd-only", "not-kbsd", "linux-any"}}
+                lb \in {"q-native", "q-any", "q-target", "versioned", "kbsd-fallback", "kbsd-only", "not-kbsd", "linux-any", "gnu-any-amd64"}}
 \* ... and a cycle closed through such a name
 QualCycles == {[p \in Pairs |-> IF p = <<1, 2>> THEN lb ELSE IF p = <<2, 1>> THEN "dep" ELSE "none"] :
                   lb \in {"q-native", "q-any", "q-target", "versioned", "kbsd-fallback", "kbsd-only", "not-kbsd", "linux-any"}}
+\* the same graphs for a target with another ABI (musl-linux-amd64): OS wildcards still apply to it
+MuslLabs == {[p \in Pairs |-> IF p = e THEN lb ELSE "none"] : e \in {<<1, 2>>, <<2, 1>>}, lb \in {"linux-any", "kbsd-only", "not-kbsd", "kbsd-fallback", "dep"}}
+\* every .dsc decoded into ONE reused variable (a Decoder loop) before ordering: three-source chains in every input order
+ChainLabs == {[p \in Pairs |-> IF p \in {<<1, 2>>} THEN "dep" ELSE IF N >= 3 /\ p = <<2, 3>> THEN "dep" ELSE "none"]}
 ASSUME Emit(SetToSeq({Vec(lab, fo) : lab \in Labelings, fo \in BOOLEAN} \cup {SelfVec} \cup SelfVecs
-                     \cup {Vec(lab, FALSE) : lab \in QualLabs \cup QualCycles}))
+                     \cup {Vec(lab, FALSE) : lab \in QualLabs \cup QualCycles})
+            \o SetToSeq({[Vec(lab, FALSE) EXCEPT !.k = "order"] @@ [target |-> "musl-linux-amd64"] : lab \in MuslLabs})
+            \o SetToSeq({Vec(lab, fo) @@ [reuse |-> TRUE] : lab \in Labelings \cup ChainLabs, fo \in {FALSE}}))
 =============================================================================
